@@ -1,234 +1,257 @@
-------------------------------- MODULE Driver -------------------------------
+------------------------------- MODULE Driver  -------------------------------
 (***************************************************************************)
 (* The concurrency mechanism of wtransport/src/driver/mod.rs, one action   *)
 (* per await-free segment of the code:                                     *)
 (*                                                                         *)
-(*  peer      opens streams (quinn accept queues, id order), sends each    *)
-(*            stream's preamble or stalls before completing it, sends      *)
-(*            datagrams, may close the connection                          *)
+(*  peer      opens streams (quinn accept queues), sends each stream's     *)
+(*            preamble or stalls before completing it, sends datagrams     *)
 (*  worker    select! loop: accept_uni / accept_bi take ONE permit of the  *)
 (*            internal h3 queue and ONE of the application-facing wt queue *)
 (*            BEFORE pulling the next stream from quinn, then spawn a task *)
 (*            per stream that holds both permits until the preamble has    *)
-(*            been parsed; accept_datagram reserves the (capacity 1)       *)
-(*            datagram slot before reading a datagram                      *)
-(*  tasks     TaskDone(s): preamble parsed -> the wt permit becomes a      *)
-(*            queued stream, the h3 permit is returned                     *)
+(*            been parsed; the loop drains its internal h3 queues;         *)
+(*            accept_datagram reserves the (capacity 1) datagram slot      *)
+(*            before reading a datagram                                    *)
+(*  tasks     end in one of five ways:                                     *)
+(*              "wt"   WebTransport stream: the wt permit becomes a queued *)
+(*                     stream, the h3 permit is returned                   *)
+(*              "h3"   HTTP/3 stream (control, QPACK, request, GREASE):    *)
+(*                     the h3 permit becomes an item of the worker's       *)
+(*                     internal queue, the wt permit is returned           *)
+(*              "bad"  protocol error: an Err item in the internal queue   *)
+(*              "junk" unknown type / stream ended early: both returned    *)
+(*              (io)   the connection went away: both returned             *)
 (*  app       callers take the receiver mutex, recv, filter by session,    *)
 (*            release; a pending call can be cancelled at any point        *)
-(*  end       a cause (peer close, local close, protocol error, all        *)
-(*            handles dropped) makes the worker leave its loop: it closes  *)
-(*            QUIC, SETS THE SHARED RESULT, and only then drops its queue  *)
+(*  end       a cause makes the worker leave its loop: it closes QUIC,     *)
+(*            SETS THE SHARED RESULT, and only then drops its queue        *)
 (*            senders; receivers that find a closed queue read the result  *)
 (*                                                                         *)
-(* Capacities are CONSTANTS (fed from the running code through the         *)
-(* wtransport_verif hook).                                                 *)
+(* The same actions are used by DriverTrace.tla to validate the mechanism  *)
+(* events recorded from the running code (wtransport_verif hooks): there   *)
+(* the class of a stream, the session match and the capacities come from   *)
+(* the log instead of the constants below.                                 *)
 (***************************************************************************)
 EXTENDS Naturals, Sequences, FiniteSets, TLC
 
 CONSTANTS
   Uni, Bi,            \* stream identifiers the peer may open, by kind
-  Stalled,            \* subset of Uni \cup Bi whose preamble never completes
-  Foreign,            \* subset naming another session
+  Stalled,            \* streams whose preamble never completes
+  ClassOf,            \* ClassOf[s] \in {"wt", "foreign", "h3", "bad", "junk"}: how the stream's task ends
   CapUniH3, CapUniWT, CapBiH3, CapBiWT, CapDg,
-  Callers,            \* application tasks calling accept_uni / accept_bi
-  Wants,              \* Wants[c]: "uni" | "bi" - what caller c accepts
+  Callers,            \* application calls of accept_uni / accept_bi
+  Wants,              \* Wants[c]: "uni" | "bi"
   NDg,                \* datagrams the peer sends
-  Causes              \* termination causes that may occur ({} = none)
+  Causes,             \* termination causes that may arise by themselves ({} = none)
+  MaxCancels          \* bound on cancellations (exploration only)
 
 Streams == Uni \cup Bi
 
 VARIABLES
-  opened,        \* streams the peer has opened (sequence, id order) - quinn's accept queues hold the not-yet-pulled ones
-  pulled,        \* streams the worker has pulled from quinn
+  opened,        \* streams the peer has opened (sequence) - quinn's accept queues hold the not-yet-pulled ones
   pre,           \* streams whose preamble bytes have all arrived
+  dgSent,
+  pulled,        \* streams the worker has pulled from quinn
   tasks,         \* streams whose per-stream task is running (holding both permits)
+  h3q,           \* h3q[kind]: the worker's internal queue (streams handed back to the loop)
+  dgSlot,
   chUni, chBi,   \* application-facing queues (sequences of streams)
-  dgSent, dgSlot, chDg, dgGot,
+  chDg,
   cs,            \* cs[c]: "idle" | "lock" (waiting for the receiver mutex) | "recv" (holding it) | "err"
-  want,          \* want[c]: "uni" | "bi"
-  lockUni, lockBi,
+  lockUni, lockBi,   \* the receiver mutexes: the set of holders ({} = free, never more than one)
   delivered,     \* set of <<caller, stream>>
-  refused,       \* foreign streams stopped by the filter
+  refused,       \* streams stopped by the session filter
+  dgGot, cancels,
   result,        \* "none" | cause
   quic,          \* "open" | "closed"
   wpc,           \* worker: "loop" | "failing" | "closedquic" | "resultset" | "done"
-  cause,         \* the cause that made the worker leave its loop
-  cancels        \* number of cancellations so far (bounded exploration)
+  cause          \* the cause that made the worker leave its loop
 
-vars == <<opened, pulled, pre, tasks, chUni, chBi, dgSent, dgSlot, chDg, dgGot, cs, want,
-          lockUni, lockBi, delivered, refused, result, quic, wpc, cause, cancels>>
+peerV == <<opened, pre, dgSent>>
+workV == <<pulled, tasks, h3q, dgSlot>>
+chanV == <<chUni, chBi, chDg>>
+appV == <<cs, lockUni, lockBi, delivered, refused, dgGot, cancels>>
+endV == <<result, quic, wpc, cause>>
+vars == <<peerV, workV, chanV, appV, endV>>
 
 SeqToSet(s) == { s[i] : i \in 1..Len(s) }
 KindOf(s) == IF s \in Uni THEN "uni" ELSE "bi"
+TasksOf(kind) == { s \in tasks : KindOf(s) = kind }
+Ch(kind) == IF kind = "uni" THEN chUni ELSE chBi
 
-FreeH3(kind) ==
-  IF kind = "uni" THEN CapUniH3 - Cardinality({ s \in tasks : s \in Uni })
-  ELSE CapBiH3 - Cardinality({ s \in tasks : s \in Bi })
-FreeWT(kind) ==
-  IF kind = "uni" THEN CapUniWT - Cardinality({ s \in tasks : s \in Uni }) - Len(chUni)
-  ELSE CapBiWT - Cardinality({ s \in tasks : s \in Bi }) - Len(chBi)
+FreeH3(kind) == (IF kind = "uni" THEN CapUniH3 ELSE CapBiH3) - Cardinality(TasksOf(kind)) - Len(h3q[kind])
+FreeWT(kind) == (IF kind = "uni" THEN CapUniWT ELSE CapBiWT) - Cardinality(TasksOf(kind)) - Len(Ch(kind))
 
 Init ==
-  /\ opened = <<>> /\ pulled = {} /\ pre = {} /\ tasks = {}
-  /\ chUni = <<>> /\ chBi = <<>>
-  /\ dgSent = 0 /\ dgSlot = 0 /\ chDg = 0 /\ dgGot = 0
-  /\ cs = [c \in Callers |-> "idle"] /\ want = Wants
-  /\ lockUni = "free" /\ lockBi = "free"
-  /\ delivered = {} /\ refused = {}
-  /\ result = "none" /\ quic = "open" /\ wpc = "loop" /\ cause = "none" /\ cancels = 0
+  /\ opened = <<>> /\ pre = {} /\ dgSent = 0
+  /\ pulled = {} /\ tasks = {} /\ h3q = [k \in {"uni", "bi"} |-> <<>>] /\ dgSlot = 0
+  /\ chUni = <<>> /\ chBi = <<>> /\ chDg = 0
+  /\ cs = [c \in Callers |-> "idle"] /\ lockUni = {} /\ lockBi = {}
+  /\ delivered = {} /\ refused = {} /\ dgGot = 0 /\ cancels = 0
+  /\ result = "none" /\ quic = "open" /\ wpc = "loop" /\ cause = "none"
 
 (* ------------------------------- peer ---------------------------------- *)
 PeerOpen(s) ==
   /\ quic = "open" /\ s \notin SeqToSet(opened)
-  \* streams of one kind are opened in id order
-  /\ \A t \in Streams : (KindOf(t) = KindOf(s) /\ t < s) => t \in SeqToSet(opened)
   /\ opened' = Append(opened, s)
-  /\ UNCHANGED <<pulled, pre, tasks, chUni, chBi, dgSent, dgSlot, chDg, dgGot, cs, want, lockUni, lockBi,
-                 delivered, refused, result, quic, wpc, cause, cancels>>
+  /\ UNCHANGED <<pre, dgSent, workV, chanV, appV, endV>>
+
+\* QUIC opens the streams of one kind in id order (an assumption on the environment, used by the
+\* model-checking configurations; recorded executions are free to contradict it)
+InIdOrder(s) == \A t \in Streams : (KindOf(t) = KindOf(s) /\ t < s) => t \in SeqToSet(opened)
 
 PeerPreamble(s) ==
-  /\ quic = "open" /\ s \in SeqToSet(opened) /\ s \notin pre /\ s \notin Stalled
+  /\ quic = "open" /\ s \in SeqToSet(opened) /\ s \notin pre
   /\ pre' = pre \cup {s}
-  /\ UNCHANGED <<opened, pulled, tasks, chUni, chBi, dgSent, dgSlot, chDg, dgGot, cs, want, lockUni, lockBi,
-                 delivered, refused, result, quic, wpc, cause, cancels>>
+  /\ UNCHANGED <<opened, dgSent, workV, chanV, appV, endV>>
 
 PeerDgram ==
   /\ quic = "open" /\ dgSent < NDg /\ dgSent' = dgSent + 1
-  /\ UNCHANGED <<opened, pulled, pre, tasks, chUni, chBi, dgSlot, chDg, dgGot, cs, want, lockUni, lockBi,
-                 delivered, refused, result, quic, wpc, cause, cancels>>
+  /\ UNCHANGED <<opened, pre, workV, chanV, appV, endV>>
 
 (* ------------------------------- worker -------------------------------- *)
-\* one completed poll of the accept_uni / accept_bi branch: both permits free and a stream waiting
+\* the next stream of a kind waiting in quinn's accept queue (0: none)
 NextOf(kind) ==
   LET cand == { i \in 1..Len(opened) : KindOf(opened[i]) = kind /\ opened[i] \notin pulled } IN
   IF cand = {} THEN 0 ELSE opened[CHOOSE i \in cand : \A j \in cand : i <= j]
 
+\* one completed poll of the accept_uni / accept_bi branch: both permits held and a stream pulled
 WAccept(kind) ==
   /\ wpc = "loop" /\ quic = "open"
   /\ FreeH3(kind) >= 1 /\ FreeWT(kind) >= 1
   /\ NextOf(kind) # 0
   /\ LET s == NextOf(kind) IN pulled' = pulled \cup {s} /\ tasks' = tasks \cup {s}
-  /\ UNCHANGED <<opened, pre, chUni, chBi, dgSent, dgSlot, chDg, dgGot, cs, want, lockUni, lockBi,
-                 delivered, refused, result, quic, wpc, cause, cancels>>
+  /\ UNCHANGED <<h3q, dgSlot, peerV, chanV, appV, endV>>
 
-TaskDone(s) ==
-  /\ s \in tasks /\ s \in pre
+\* the per-stream task ends the way `how` says
+TaskDoneAs(s, how) ==
+  /\ s \in tasks
   /\ tasks' = tasks \ {s}
-  /\ IF s \in Uni THEN chUni' = Append(chUni, s) /\ UNCHANGED chBi
-     ELSE chBi' = Append(chBi, s) /\ UNCHANGED chUni
-  /\ UNCHANGED <<opened, pulled, pre, dgSent, dgSlot, chDg, dgGot, cs, want, lockUni, lockBi,
-                 delivered, refused, result, quic, wpc, cause, cancels>>
+  /\ CASE how \in {"wt", "foreign"} ->
+            /\ s \in pre
+            /\ IF s \in Uni THEN chUni' = Append(chUni, s) /\ UNCHANGED chBi
+               ELSE chBi' = Append(chBi, s) /\ UNCHANGED chUni
+            /\ UNCHANGED h3q
+       [] how \in {"h3", "bad"} ->
+            /\ s \in pre
+            /\ h3q' = [h3q EXCEPT ![KindOf(s)] = Append(@, s)]
+            /\ UNCHANGED <<chUni, chBi>>
+       [] how = "junk" -> UNCHANGED <<h3q, chUni, chBi>>
+  /\ UNCHANGED <<pulled, dgSlot, chDg, peerV, appV, endV>>
+
+TaskDone(s) == s \notin Stalled /\ TaskDoneAs(s, ClassOf[s])
 
 \* the stream's read fails when the connection goes away: the task ends, permits return
-TaskIoError(s) ==
-  /\ s \in tasks /\ quic = "closed"
-  /\ tasks' = tasks \ {s}
-  /\ UNCHANGED <<opened, pulled, pre, chUni, chBi, dgSent, dgSlot, chDg, dgGot, cs, want, lockUni, lockBi,
-                 delivered, refused, result, quic, wpc, cause, cancels>>
+TaskIoError(s) == quic = "closed" /\ TaskDoneAs(s, "junk")
+
+\* the loop takes an item from its internal queue; an Err item makes it leave with that error
+WHandleH3As(kind, bad) ==
+  /\ wpc = "loop" /\ h3q[kind] # <<>>
+  /\ h3q' = [h3q EXCEPT ![kind] = Tail(@)]
+  /\ IF bad THEN cause' = "proto" /\ wpc' = "failing" /\ UNCHANGED <<result, quic>>
+     ELSE UNCHANGED endV
+  /\ UNCHANGED <<pulled, tasks, dgSlot, peerV, chanV, appV>>
+
+WHandleH3(kind) == h3q[kind] # <<>> /\ WHandleH3As(kind, ClassOf[Head(h3q[kind])] = "bad")
 
 WAcceptDg ==
   /\ wpc = "loop" /\ quic = "open"
   /\ chDg < CapDg /\ dgSlot < dgSent
   /\ dgSlot' = dgSlot + 1 /\ chDg' = chDg + 1
-  /\ UNCHANGED <<opened, pulled, pre, tasks, chUni, chBi, dgSent, dgGot, cs, want, lockUni, lockBi,
-                 delivered, refused, result, quic, wpc, cause, cancels>>
+  /\ UNCHANGED <<pulled, tasks, h3q, chUni, chBi, peerV, appV, endV>>
 
 (* ----------------------------- application ----------------------------- *)
 Call(c) ==
   /\ cs[c] = "idle" /\ cs' = [cs EXCEPT ![c] = "lock"]
-  /\ UNCHANGED <<opened, pulled, pre, tasks, chUni, chBi, dgSent, dgSlot, chDg, dgGot, want, lockUni, lockBi,
-                 delivered, refused, result, quic, wpc, cause, cancels>>
+  /\ UNCHANGED <<lockUni, lockBi, delivered, refused, dgGot, cancels, peerV, workV, chanV, endV>>
 
 Lock(c) ==
   /\ cs[c] = "lock"
-  /\ IF want[c] = "uni" THEN lockUni = "free" /\ lockUni' = c /\ UNCHANGED lockBi
-     ELSE lockBi = "free" /\ lockBi' = c /\ UNCHANGED lockUni
+  /\ IF Wants[c] = "uni" THEN lockUni = {} /\ lockUni' = {c} /\ UNCHANGED lockBi
+     ELSE lockBi = {} /\ lockBi' = {c} /\ UNCHANGED lockUni
   /\ cs' = [cs EXCEPT ![c] = "recv"]
-  /\ UNCHANGED <<opened, pulled, pre, tasks, chUni, chBi, dgSent, dgSlot, chDg, dgGot, want,
-                 delivered, refused, result, quic, wpc, cause, cancels>>
+  /\ UNCHANGED <<delivered, refused, dgGot, cancels, peerV, workV, chanV, endV>>
 
-\* recv yields a stream: deliver it if it names the live session, otherwise stop it and loop
-Recv(c) ==
+\* recv yields a stream: deliver it if it names the caller's session, otherwise stop it and loop
+RecvAs(c, match) ==
   /\ cs[c] = "recv"
-  /\ IF want[c] = "uni" THEN
-       /\ chUni # <<>>
+  /\ IF Wants[c] = "uni" THEN
+       /\ chUni # <<>> /\ lockUni = {c}
        /\ chUni' = Tail(chUni) /\ UNCHANGED chBi
-       /\ IF Head(chUni) \in Foreign
+       /\ IF ~match
           THEN refused' = refused \cup {Head(chUni)} /\ UNCHANGED <<delivered, cs, lockUni>>
           ELSE /\ delivered' = delivered \cup {<<c, Head(chUni)>>} /\ UNCHANGED refused
-               /\ cs' = [cs EXCEPT ![c] = "idle"] /\ lockUni' = "free"
+               /\ cs' = [cs EXCEPT ![c] = "idle"] /\ lockUni' = {}
        /\ UNCHANGED lockBi
      ELSE
-       /\ chBi # <<>>
+       /\ chBi # <<>> /\ lockBi = {c}
        /\ chBi' = Tail(chBi) /\ UNCHANGED chUni
-       /\ IF Head(chBi) \in Foreign
+       /\ IF ~match
           THEN refused' = refused \cup {Head(chBi)} /\ UNCHANGED <<delivered, cs, lockBi>>
           ELSE /\ delivered' = delivered \cup {<<c, Head(chBi)>>} /\ UNCHANGED refused
-               /\ cs' = [cs EXCEPT ![c] = "idle"] /\ lockBi' = "free"
+               /\ cs' = [cs EXCEPT ![c] = "idle"] /\ lockBi' = {}
        /\ UNCHANGED lockUni
-  /\ UNCHANGED <<opened, pulled, pre, tasks, dgSent, dgSlot, chDg, dgGot, want, result, quic, wpc, cause, cancels>>
+  /\ UNCHANGED <<chDg, dgGot, cancels, peerV, workV, endV>>
+
+Recv(c) ==
+  /\ cs[c] = "recv" /\ Ch(Wants[c]) # <<>>
+  /\ RecvAs(c, ClassOf[Head(Ch(Wants[c]))] # "foreign")
 
 \* the future is dropped while waiting for the mutex or inside recv: nothing is taken
 Cancel(c) ==
-  /\ cs[c] \in {"lock", "recv"} /\ cancels < 2
+  /\ cs[c] \in {"lock", "recv"} /\ cancels < MaxCancels
   /\ cancels' = cancels + 1
   /\ cs' = [cs EXCEPT ![c] = "idle"]
-  /\ lockUni' = IF lockUni = c THEN "free" ELSE lockUni
-  /\ lockBi' = IF lockBi = c THEN "free" ELSE lockBi
-  /\ UNCHANGED <<opened, pulled, pre, tasks, chUni, chBi, dgSent, dgSlot, chDg, dgGot, want,
-                 delivered, refused, result, quic, wpc, cause>>
+  /\ lockUni' = lockUni \ {c}
+  /\ lockBi' = lockBi \ {c}
+  /\ UNCHANGED <<delivered, refused, dgGot, peerV, workV, chanV, endV>>
 
 RecvDg ==
   /\ chDg > 0 /\ chDg' = chDg - 1 /\ dgGot' = dgGot + 1
-  /\ UNCHANGED <<opened, pulled, pre, tasks, chUni, chBi, dgSent, dgSlot, cs, want, lockUni, lockBi,
-                 delivered, refused, result, quic, wpc, cause, cancels>>
+  /\ UNCHANGED <<chUni, chBi, cs, lockUni, lockBi, delivered, refused, cancels, peerV, workV, endV>>
 
 (* ----------------------------- termination ----------------------------- *)
-\* a cause arises; "peer" and "local" close QUIC themselves, "proto" and "handles" are the worker's own
+\* a cause arises; "peer" and "local" mean QUIC is closed already, "proto", "session" (the peer ended
+\* the session: capsule / FIN) and "handles" are the worker's own decision
 Arise(k) ==
-  /\ wpc = "loop" /\ k \in Causes /\ cause = "none"
+  /\ wpc = "loop" /\ cause = "none"
   /\ cause' = k /\ wpc' = "failing"
   /\ quic' = IF k \in {"peer", "local"} THEN "closed" ELSE quic
-  /\ UNCHANGED <<opened, pulled, pre, tasks, chUni, chBi, dgSent, dgSlot, chDg, dgGot, cs, want, lockUni, lockBi,
-                 delivered, refused, result, cancels>>
+  /\ UNCHANGED <<result, peerV, workV, chanV, appV>>
 
 WCloseQuic ==
   /\ wpc = "failing" /\ wpc' = "closedquic" /\ quic' = "closed"
-  /\ UNCHANGED <<opened, pulled, pre, tasks, chUni, chBi, dgSent, dgSlot, chDg, dgGot, cs, want, lockUni, lockBi,
-                 delivered, refused, result, cause, cancels>>
+  /\ UNCHANGED <<result, cause, peerV, workV, chanV, appV>>
 
 ResultSet ==
   /\ wpc = "closedquic" /\ wpc' = "resultset" /\ result' = cause
-  /\ UNCHANGED <<opened, pulled, pre, tasks, chUni, chBi, dgSent, dgSlot, chDg, dgGot, cs, want, lockUni, lockBi,
-                 delivered, refused, quic, cause, cancels>>
+  /\ UNCHANGED <<quic, cause, peerV, workV, chanV, appV>>
 
 DropSenders ==
   /\ wpc = "resultset" /\ wpc' = "done"
-  /\ UNCHANGED <<opened, pulled, pre, tasks, chUni, chBi, dgSent, dgSlot, chDg, dgGot, cs, want, lockUni, lockBi,
-                 delivered, refused, result, quic, cause, cancels>>
+  /\ UNCHANGED <<result, quic, cause, peerV, workV, chanV, appV>>
 
 \* a receiver sees its queue closed (all senders gone: the worker's and every task's permit) and empty
-QueueClosed(kind) == wpc = "done" /\ { s \in tasks : KindOf(s) = kind } = {}
+QueueClosed(kind) == wpc = "done" /\ TasksOf(kind) = {}
 RecvClosed(c) ==
   /\ cs[c] = "recv"
-  /\ IF want[c] = "uni" THEN chUni = <<>> /\ QueueClosed("uni") ELSE chBi = <<>> /\ QueueClosed("bi")
+  /\ Ch(Wants[c]) = <<>> /\ QueueClosed(Wants[c])
   /\ cs' = [cs EXCEPT ![c] = "err"]
-  /\ lockUni' = IF lockUni = c THEN "free" ELSE lockUni
-  /\ lockBi' = IF lockBi = c THEN "free" ELSE lockBi
-  /\ UNCHANGED <<opened, pulled, pre, tasks, chUni, chBi, dgSent, dgSlot, chDg, dgGot, want,
-                 delivered, refused, result, quic, wpc, cause, cancels>>
+  /\ lockUni' = lockUni \ {c}
+  /\ lockBi' = lockBi \ {c}
+  /\ UNCHANGED <<delivered, refused, dgGot, cancels, peerV, workV, chanV, endV>>
 
 Next ==
-  \/ \E s \in Streams : PeerOpen(s) \/ PeerPreamble(s) \/ TaskDone(s) \/ TaskIoError(s)
-  \/ PeerDgram \/ WAccept("uni") \/ WAccept("bi") \/ WAcceptDg \/ RecvDg
+  \/ \E s \in Streams : (PeerOpen(s) /\ InIdOrder(s)) \/ (s \notin Stalled /\ PeerPreamble(s)) \/ TaskDone(s) \/ TaskIoError(s)
+  \/ PeerDgram \/ WAccept("uni") \/ WAccept("bi") \/ WHandleH3("uni") \/ WHandleH3("bi") \/ WAcceptDg \/ RecvDg
   \/ \E c \in Callers : Call(c) \/ Lock(c) \/ Recv(c) \/ Cancel(c) \/ RecvClosed(c)
   \/ \E k \in Causes : Arise(k)
   \/ WCloseQuic \/ ResultSet \/ DropSenders
 
 Fairness ==
   /\ WF_vars(WAccept("uni")) /\ WF_vars(WAccept("bi")) /\ WF_vars(WAcceptDg) /\ WF_vars(RecvDg)
-  /\ \A s \in Streams : WF_vars(PeerOpen(s)) /\ WF_vars(TaskDone(s)) /\ WF_vars(TaskIoError(s))
+  /\ WF_vars(WHandleH3("uni")) /\ WF_vars(WHandleH3("bi"))
+  /\ \A s \in Streams : WF_vars(PeerOpen(s) /\ InIdOrder(s)) /\ WF_vars(TaskDone(s)) /\ WF_vars(TaskIoError(s))
   /\ \A s \in Streams \ Stalled : WF_vars(PeerPreamble(s))
   /\ WF_vars(PeerDgram)
   /\ \A c \in Callers : WF_vars(Call(c)) /\ SF_vars(Lock(c)) /\ WF_vars(Recv(c)) /\ WF_vars(RecvClosed(c))
@@ -238,15 +261,23 @@ Spec == Init /\ [][Next]_vars /\ Fairness
 
 (* ---------------------------- C08: exactly once ------------------------ *)
 DeliveredStreams == { d[2] : d \in delivered }
-ExactlyOnce ==
+InQueues == SeqToSet(chUni) \cup SeqToSet(chBi) \cup SeqToSet(h3q["uni"]) \cup SeqToSet(h3q["bi"])
+\* structural part: holds of every execution, recorded ones included
+OnePlace ==
   /\ \A d1, d2 \in delivered : d1[2] = d2[2] => d1 = d2                 \* never duplicated
   /\ DeliveredStreams \subseteq (SeqToSet(opened) \cap pre)             \* never invented
+  /\ \A s \in tasks : s \notin InQueues \cup DeliveredStreams \cup refused
+  /\ DeliveredStreams \cap refused = {}
+  /\ \A i, j \in 1..Len(chUni) : chUni[i] = chUni[j] => i = j
+  /\ \A i, j \in 1..Len(chBi) : chBi[i] = chBi[j] => i = j
+Foreign == { s \in Streams : ClassOf[s] = "foreign" }
+ExactlyOnce ==
+  /\ OnePlace
   /\ DeliveredStreams \cap Foreign = {}                                  \* never foreign (C17)
   /\ refused \subseteq Foreign
-  \* never lost: a stream is in exactly one place
-  /\ \A s \in pulled : (s \in tasks) \/ (s \in SeqToSet(chUni) \cup SeqToSet(chBi))
-                        \/ s \in DeliveredStreams \/ s \in refused \/ (quic = "closed")
-  /\ \A s \in tasks : s \notin SeqToSet(chUni) \cup SeqToSet(chBi) \cup DeliveredStreams
+  \* never lost: a WebTransport stream is in exactly one place
+  /\ \A s \in pulled : ClassOf[s] \in {"wt", "foreign"} =>
+        (s \in tasks) \/ (s \in InQueues) \/ s \in DeliveredStreams \/ s \in refused \/ (quic = "closed")
 PermitsSane == FreeH3("uni") >= 0 /\ FreeWT("uni") >= 0 /\ FreeH3("bi") >= 0 /\ FreeWT("bi") >= 0 /\ chDg <= CapDg
 
 (* ------------------------ C09: the result comes first ------------------ *)
@@ -255,10 +286,9 @@ ResultBeforeClose == (\E c \in Callers : cs[c] = "err") => result # "none"
 CauseNotMisattributed == result # "none" => result = cause
 
 (* ----------------------- C07: independence (liveness) ------------------ *)
-Healthy == (Streams \ Stalled) \ Foreign
+Healthy == { s \in Streams \ Stalled : ClassOf[s] = "wt" }
 \* with callers that keep accepting, every healthy stream is eventually delivered, unless the connection ends
 AllHealthyDelivered == <>(Healthy \subseteq DeliveredStreams \/ cause # "none")
 DatagramsFlow == <>(dgGot = NDg \/ cause # "none")
-\* once a cause has arisen every caller that calls again ends in an error
 Terminates == (cause # "none") ~> (wpc = "done" /\ tasks = {})
 =============================================================================
